@@ -5,6 +5,7 @@ Everything here is plain Python so that a harness function can be (a) executed s
 """
 from __future__ import annotations
 
+import inspect
 import json
 import os
 from dataclasses import dataclass, field
@@ -64,7 +65,8 @@ def _sig_of(exc: BaseException) -> str:
 def run_concrete(fn: Callable, args: Dict[str, Any]):
     """Plain, untraced execution on concrete values. -> (outcome, sig, detail)"""
     try:
-        fn(**args)
+        ba = inspect.signature(fn).bind(**args)
+        fn(*ba.args, **ba.kwargs)
     except IgnoreAttempt:
         return 'assume', None, None
     except HViolation as e:
